@@ -28,11 +28,12 @@ class Case:
         self.script, self.tabs, self.ops = script, tabs, ops
         self.tables = {t["name"]: t for t in tabs}
         used = pipes.script_tables(script)
-        self.frames = {t["name"]: pipes.table_frame(t) for t in tabs if t["name"] in used}
+        self.frames = {t["name"]: frame_with_extras(t) for t in tabs if t["name"] in used}
         self._res = {}
 
     def json(self):
-        return {"script": pipes.to_json(self.script), "tables": [{"name": t["name"], "spec": [list(x) for x in t["spec"]], "rows": t["rows"]}
+        return {"script": pipes.to_json(self.script), "tables": [dict({"name": t["name"], "spec": [list(x) for x in t["spec"]], "rows": t["rows"]},
+                                                                       **({"extra": t["extra"]} if t.get("extra") else {}))
                                                                   for t in self.tabs if t["name"] in self.frames]}
 
     def key(self):
@@ -49,17 +50,31 @@ class Case:
         return self._res[backend]
 
 
+def frame_with_extras(t):
+    """the stored table: the declared columns plus, optionally, columns the TableDescription does NOT declare (t["extra"] =
+    [[name, type, values]]); a pipeline must never see or return those"""
+    f = pipes.table_frame(t)
+    for name, ty, vals in t.get("extra") or []:
+        f[name] = pipes.make_frame([(name, ty)], [[v] for v in vals])[name] if len(vals) else pipes.make_frame([(name, ty)], [])[name]
+    return f
+
+
 def case_from_json(j):
-    tabs = [{"name": t["name"], "spec": [tuple(x) for x in t["spec"]], "rows": t["rows"]} for t in j["tables"]]
+    tabs = [dict({"name": t["name"], "spec": [tuple(x) for x in t["spec"]], "rows": t["rows"]}, **({"extra": t["extra"]} if t.get("extra") else {}))
+            for t in j["tables"]]
     ops = pipes.build(j["script"], {t["name"]: t for t in tabs})
     return Case(j["script"], tabs, ops)
 
 
 def gen_case(rng, *, features=None, depth=(1, 4), ntables=2, null_rate=0.15, nrows=None, types=("int", "float", "str"),
-             total_orders=True, unique_col="uid", tries=20):
+             total_orders=True, unique_col="uid", tries=20, extra_rate=0.0):
     """a random pipeline the real builder accepts (None if none was found in `tries` draws)"""
     for _ in range(tries):
         tabs = [pipes.gen_table(rng, f"d{i+1}", null_rate=null_rate, nrows=nrows, types=types, unique_col=unique_col) for i in range(ntables)]
+        for t in tabs:
+            if rng.random() < extra_rate:       # the stored table is wider than its description
+                ty = rng.choice(["int", "str"])
+                t["extra"] = [["zz_undeclared", ty, [pipes.gen_value(rng, ty, 0.2) for _ in t["rows"]]]]
         g = pipes.Gen(rng, tabs, features=features, total_orders=total_orders)
         s, colty, order = g.pipeline(rng.randint(*depth))
         if s["op"] == "table":
